@@ -19,4 +19,5 @@ let table : (string * (Model.sx -> Model.sx)) list = [
   "evmapp", Model.check_evmapp;
   "crash", Model.check_crash;
   "blocksync", Model.check_blocksync;
+  "statedb", Model.check_statedb;
 ]
